@@ -1,0 +1,28 @@
+//go:build verif
+// +build verif
+
+package balloon
+
+import (
+	"fmt"
+
+	"github.com/bbva/qed/balloon/hyper"
+)
+
+// VerifHyperCacheEqual evaluates, under the balloon lock, the structural
+// invariant "the in-memory top levels of the hyper tree equal what a fresh
+// rebuild from the store produces" (build tag "verif" only).
+func (b *Balloon) VerifHyperCacheEqual() (bool, error) {
+	b.RLock()
+	defer b.RUnlock()
+	if b.hyperTree == nil {
+		return false, fmt.Errorf("balloon is closed")
+	}
+	live, ok := b.hyperTree.VerifCache().(*hyper.BatchCache)
+	if !ok {
+		return false, fmt.Errorf("hyper cache is not a BatchCache")
+	}
+	fresh := hyper.NewBatchCache(hyper.DefaultBatchLevels)
+	_ = hyper.NewHyperTreeWithLogger(b.hasherF, b.store, fresh, b.log.Named("verif"))
+	return live.Equal(fresh), nil
+}
